@@ -539,3 +539,67 @@ func VpHSklConc() {
 	}
 	vpAssert(ok, "C22:skl.conc.final-backward-mirrors-forward")
 }
+
+// VpHSklHeld: a reader that obtained an entry (through Get, a forward iterator or a UniIterator)
+// keeps seeing exactly that entry while later puts overwrite the same internal key or insert
+// other keys: the ValueStruct handed out aliases arena bytes, and the list relies on arena bytes
+// never changing once published ("readers never see torn entries" for entries that are held
+// across a concurrent writer's put; the writer here runs between the read and its use).
+func VpHSklHeld() {
+	klenMax := vpParam("skl.klen", 1)
+	expMax := uint64(vpParam("skl.expmax", 128))
+	e := &vpSklEnv{maxH: vpParam("skl.maxh", 2)}
+	e.install()
+	s := NewSkiplist(int64(vpParam("skl.arena", 512)))
+	e.arena = s.arena
+
+	// first version of the entry: value of 1..2 bytes
+	p1 := vpSklNewPut(klenMax, 1+vpChoose("vlen1", 2), expMax)
+	s.Put(p1.key, p1.v)
+
+	// the reader takes the entry
+	var held y.ValueStruct
+	var heldKey []byte
+	switch vpChoose("reader", 3) {
+	case 0:
+		held = s.Get(p1.key)
+		heldKey = p1.key
+		vpCover("skl.held.get")
+	case 1:
+		it := s.NewIterator()
+		it.SeekToFirst()
+		held, heldKey = it.Value(), it.Key()
+		_ = it.Close()
+		vpCover("skl.held.iterator")
+	case 2:
+		it := s.NewUniIterator(vpChoose("uni.reversed", 2) == 1)
+		it.Rewind()
+		held, heldKey = it.Value(), it.Key()
+		_ = it.Close()
+		vpCover("skl.held.uni")
+	}
+	vpAssert(vpAnd(bytes.Equal(heldKey, p1.key), vpSklValEq(held, p1.v)), "C22:skl.held.read-is-the-put")
+
+	// the writer: overwrite of the same internal key with a value that is shorter, equal or
+	// longer, or a put of another key
+	var p2 *vpSklPut
+	if vpChoose("writer", 2) == 0 {
+		p2 = &vpSklPut{uk: p1.uk, ts: p1.ts, key: y.KeyWithTs(p1.uk, p1.ts)}
+		p2.v = y.ValueStruct{Meta: vpU8("meta2"), UserMeta: vpU8("usermeta2"), ExpiresAt: vpU64("expires2"),
+			Value: vpBytes("val2", vpChoose("vlen2", 4))}
+		vpAssume(p2.v.ExpiresAt < expMax)
+		vpCover("skl.held.overwrite")
+	} else {
+		p2 = vpSklNewPut(klenMax, vpChoose("vlen2", 3), expMax)
+		vpCover("skl.held.other-key")
+	}
+	s.Put(p2.key, p2.v)
+
+	// what the reader holds is still the first put, byte for byte
+	vpAssert(vpAnd(bytes.Equal(heldKey, p1.key), vpSklValEq(held, p1.v)), "C22:skl.held.entry-unchanged-by-later-put")
+	// and a new read sees the latest put of the key
+	got := s.Get(p1.key)
+	same := vpSklSame(p1.uk, p1.ts, p2.uk, p2.ts)
+	vpAssert(vpAnd(vpImplies(same, vpSklValEq(got, p2.v)), vpImplies(vpNot(same), vpSklValEq(got, p1.v))), "C22:skl.held.new-read-sees-latest")
+	e.checkTowers()
+}
